@@ -7,7 +7,9 @@
 #ifndef VF_NATIVE
 void vf_input(void *dst, size_t n)
 {
-    /* the input log is the sequence of values assigned to vf_in_byte in the verifier's trace, in execution order */
+    /* the input log is read off the verifier's trace structurally: the k-th executed call of vf_input, the j-th
+     * iteration of this loop (every iteration shows as a loop-head step) and the value assigned to vf_in_byte.
+     * --slice-formula keeps exactly the bytes that matter; the others are don't-cares and replay as 0. */
     unsigned char *d = (unsigned char *)dst;
     for (size_t i = 0; i < n; i++) {
         unsigned char vf_in_byte = nondet_uchar();
@@ -20,16 +22,19 @@ int vf_fresh(void **pp, size_t n)
     /* same meaning as __CPROVER_is_fresh in a requires clause: a new object of n bytes, arbitrary contents */
     void *p = malloc(n);
     __CPROVER_assume(p != 0);
+    __CPROVER_assume(n < 65536);
     vf_input(p, n);
     *pp = p;
     return 1;
 }
 #else
 #include <string.h>
-extern const unsigned char vf_replay_data[];
+extern const unsigned long vf_replay_recs[];   /* (call ordinal << 24 | offset << 8 | byte), any order */
+static unsigned vf_call_no;
 extern const unsigned vf_replay_len;
-static unsigned vf_pos;
 int vf_failed, vf_verbose;
+static struct { char *p; size_t n; } vf_blocks[4096];
+static int vf_nblocks;
 
 int g_i, g_j, g_k, g_l;
 int g_a, g_b, g_c, g_d;
@@ -38,16 +43,15 @@ long g_live;
 unsigned g_seq;
 VF_TRACE_LIST(VF_TR_DEF)
 
-static struct { char *p; size_t n; } vf_blocks[4096];
-static int vf_nblocks;
-
 void vf_input(void *dst, size_t n)
 {
+    unsigned slot = vf_call_no++;
+    /* bytes the verifier's trace did not fix are irrelevant to the counterexample: zero */
     unsigned char *d = (unsigned char *)dst;
-    for (size_t i = 0; i < n; i++) {
-        /* bytes the verifier's trace did not fix are irrelevant to the counterexample: zero */
-        d[i] = vf_pos < vf_replay_len ? vf_replay_data[vf_pos] : 0;
-        vf_pos++;
+    for (size_t i = 0; i < n; i++) d[i] = 0;
+    for (unsigned k = 0; k < vf_replay_len; k++) {
+        unsigned long r = vf_replay_recs[k];
+        if ((r >> 24) == slot && ((r >> 8) & 0xffff) < n) d[(r >> 8) & 0xffff] = (unsigned char)(r & 0xff);
     }
 }
 
